@@ -469,6 +469,8 @@ fn tolerant_op<K: SimKey>(w: &mut World<K>, op: &Op, poss: &mut Poss, i: usize, 
                 }
             }
         }
+        // never generated for fault-injection workloads (w_put_around is 0 there)
+        Op::PutAround { .. } => Ok(()),
         Op::DrainReaders | Op::Range { .. } | Op::Audit => Ok(()),
     }
 }
